@@ -71,7 +71,7 @@ var dlexKind = map[string]string{"Error": "E", "Comment": "C", "Instruction": "I
 func (h *harness) opDlex(b []byte, esc rune, how string) {
 	nrunes := utf8.RuneCount(b)
 	var items []dockerfile.ItemForVerif
-	out := guard(func() string {
+	out := deadline(func() string {
 		rd := io.Reader(bytes.NewReader(b))
 		if len(b)%3 == 1 {
 			rd = &slowReader{b: b, chunk: 1 + len(b)%5}
@@ -97,7 +97,7 @@ func (h *harness) opDlex(b []byte, esc rune, how string) {
 	case out == "panic":
 		h.fail("", "dockerfile-lexer-panic "+wit)
 	case out == "hang":
-		h.fail("", "dockerfile-lexer-keeps-reading-after-the-end "+wit)
+		h.fail("", "dockerfile-lexer-does-not-return (keeps reading after the end, or no answer within 30 s) "+wit)
 	default:
 		written := 0
 		for _, it := range items {
